@@ -4,6 +4,8 @@ import (
 	"fmt"
 	"go/token"
 	"go/types"
+	"rtpcheck/bounds"
+	"rtpcheck/lin"
 	"sort"
 	"strings"
 
@@ -261,8 +263,16 @@ type startPred struct {
 	polarity bool // the buffer must be cleared when the bit has this value
 }
 
-// carryRule checks the typestate rule for receiver field `field` in fn. One obligation per start
-// predicate.
+// carryRule checks the carry-buffer typestate for receiver field `field` in fn, one obligation per
+// start predicate. The CFG is walked path by path with three pieces of state: what the path has
+// learnt about the start marker (branches whose condition is the marker bit, in either polarity and
+// however the bit reached the branch), whether the carried content has been dropped since entry
+// (a store to the field of a value that is not computed from the field, or an emptiness test taken
+// on its empty side), and the blocks visited. The content carried over from earlier packets may be
+// consumed (appended to, copied or returned) only on paths on which the marker is known to say
+// "continuation"; a consumption on a path where the marker says "start" or was never looked at, with
+// the old content still there, is the violation: the next intact unit would be glued to a stale
+// fragment.
 func carryRule(c *Ctx, fnName, field string, preds []startPred) int {
 	p, r := c.Prog, c.R
 	fn := p.Func(fnName)
@@ -272,179 +282,175 @@ func carryRule(c *Ctx, fnName, field string, preds []startPred) int {
 	}
 	m := bits.Run(p, fn)
 	recv := fn.Params[0]
-	// uses: loads of the field that are not nil/len tests only
-	var firstUse ssa.Instruction
-	var clears []*ssa.Store
-	for _, b := range fn.Blocks {
-		for _, in := range b.Instrs {
-			switch x := in.(type) {
-			case *ssa.Store:
-				fa, ok := x.Addr.(*ssa.FieldAddr)
-				if ok && fa.X == recv && core.FieldName(fa) == field && (core.IsNilConst(x.Val) || isEmptySlice(x.Val)) {
-					clears = append(clears, x)
+	isFieldAddr := func(v ssa.Value) bool {
+		fa, ok := v.(*ssa.FieldAddr)
+		return ok && fa.X == recv && core.FieldName(fa) == field
+	}
+	// values computed from the old content: loads of the field and what is sliced / phi-ed from them
+	derived := map[ssa.Value]bool{}
+	var mark func(v ssa.Value)
+	mark = func(v ssa.Value) {
+		if derived[v] {
+			return
+		}
+		derived[v] = true
+		refs := v.Referrers()
+		if refs == nil {
+			return
+		}
+		for _, ref := range *refs {
+			switch x := ref.(type) {
+			case *ssa.Slice:
+				if x.X == v {
+					mark(x)
+				}
+			case *ssa.Phi:
+				mark(x)
+			case *ssa.ChangeType:
+				mark(x)
+			case *ssa.Call:
+				// append(old, ...) yields old content followed by more
+				if core.BuiltinName(x) == "append" && len(x.Call.Args) > 0 && x.Call.Args[0] == v {
+					mark(x)
 				}
 			}
 		}
 	}
-	// accumulating uses: append(load field, ...) or copy from load field
-	var uses []ssa.Instruction
+	nLoads := 0
 	for _, b := range fn.Blocks {
 		for _, in := range b.Instrs {
-			call, ok := in.(*ssa.Call)
-			if !ok {
-				continue
-			}
-			bn := core.BuiltinName(call)
-			if bn != "append" && bn != "copy" {
-				continue
-			}
-			for _, a := range call.Call.Args {
-				if loadedFieldOf(a, recv) == field {
-					uses = append(uses, call)
-				}
+			if u, ok := in.(*ssa.UnOp); ok && u.Op == token.MUL && isFieldAddr(u.X) {
+				nLoads++
+				mark(u)
 			}
 		}
 	}
-	_ = firstUse
+	// consumption of the old content at an instruction
+	consumes := func(in ssa.Instruction) bool {
+		switch x := in.(type) {
+		case *ssa.Call:
+			bn := core.BuiltinName(x)
+			if bn == "append" || bn == "copy" {
+				for _, a := range x.Call.Args {
+					if derived[a] {
+						return true
+					}
+				}
+			}
+		case *ssa.Return:
+			for _, v := range x.Results {
+				if derived[v] {
+					return true
+				}
+			}
+		case *ssa.Store:
+			if derived[x.Val] && !isFieldAddr(x.Addr) {
+				return true
+			}
+		}
+		return false
+	}
 	n := 0
 	for _, sp := range preds {
-		ok := false
-		detail := fmt.Sprintf("%d clearing stores, %d uses; none is guarded exactly by the start predicate %s=%v", len(clears), len(uses), sp.pattern, sp.polarity)
-		for _, st := range clears {
-			gs := core.DominatingGuards(st.Block())
-			hasPred, clean := false, true
-			// guards shared with every use are context (codec dispatch, length checks), not conditions
-			// of the clearing itself
-			contextual := func(g core.Guard) bool {
-				for _, u := range uses {
-					found := false
-					for _, ug := range core.DominatingGuards(u.Block()) {
-						if ug.Cond == g.Cond && ug.Truth == g.Truth {
-							found = true
+		type st struct {
+			mark    int8 // 0 unknown, 1 start, 2 continuation
+			dropped bool
+		}
+		bad := ""
+		nTests, nUses := 0, 0
+		seen := map[string]bool{}
+		onPath := map[*ssa.BasicBlock]int{}
+		var walk func(b *ssa.BasicBlock, s st)
+		walk = func(b *ssa.BasicBlock, s st) {
+			if bad != "" || onPath[b] >= 2 {
+				return
+			}
+			k := fmt.Sprintf("%d|%d|%v", b.Index, s.mark, s.dropped)
+			if seen[k] && onPath[b] == 0 {
+				return
+			}
+			seen[k] = true
+			onPath[b]++
+			defer func() { onPath[b]-- }()
+			for _, in := range b.Instrs {
+				if consumes(in) {
+					nUses++
+					if !s.dropped && s.mark != 2 {
+						why := "the start marker says start"
+						if s.mark == 0 {
+							why = "the start marker has not been examined"
 						}
-					}
-					if !found {
-						return false
-					}
-				}
-				return len(uses) > 0
-			}
-			for _, g := range gs {
-				iff := g.At.Instrs[len(g.At.Instrs)-1].(*ssa.If)
-				cv := m.CondOf(iff)
-				switch {
-				case vecMatches(cv, sp.pattern) && g.Truth == sp.polarity:
-					hasPred = true
-				case vecMatches(cv, "!"+sp.pattern) && g.Truth == !sp.polarity:
-					hasPred = true
-				case isEmptinessTest(g.Cond, recv, field):
-				case contextual(g):
-				default:
-					clean = false
-				}
-			}
-			if !hasPred || !clean {
-				continue
-			}
-			// executes before every accumulating use: no use can reach the clearing store's block first
-			before := true
-			for _, u := range uses {
-				if u.Block() != st.Block() && core.Reachable(u.Block())[st.Block()] && !loopsBack(u.Block(), st.Block()) {
-					before = false
-				}
-				if u.Block() == st.Block() && core.InstrIndex(u) < core.InstrIndex(st) {
-					before = false
-				}
-			}
-			// the start test must lie on every path to a success return of the same arm (a path that
-			// never looks at the start marker cannot honour it)
-			testBlock := st.Block()
-			for _, g := range gs {
-				iff := g.At.Instrs[len(g.At.Instrs)-1].(*ssa.If)
-				if cv := m.CondOf(iff); vecMatches(cv, sp.pattern) || vecMatches(cv, "!"+sp.pattern) {
-					testBlock = g.At
-				}
-			}
-			var ctx []core.Guard
-			for _, g := range core.DominatingGuards(testBlock) {
-				ctx = append(ctx, g)
-			}
-			for _, b := range fn.Blocks {
-				if len(b.Instrs) == 0 {
-					continue
-				}
-				ret, isRet := b.Instrs[len(b.Instrs)-1].(*ssa.Return)
-				if !isRet || len(ret.Results) == 0 || !core.IsNilConst(core.Resolve(ret.Results[len(ret.Results)-1])) {
-					continue
-				}
-				sameArm := true
-				rg := core.DominatingGuards(b)
-				for _, g := range ctx {
-					found := false
-					for _, x := range rg {
-						if x.Cond == g.Cond && x.Truth == g.Truth {
-							found = true
-						}
-					}
-					if !found {
-						sameArm = false
+						bad = fmt.Sprintf("%s is consumed at %s on a path on which %s and the content carried over has not been dropped", field, p.Position(in.Pos()), why)
+						return
 					}
 				}
-				if sameArm && len(ctx) > 0 && !testBlock.Dominates(b) {
-					before = false
-					detail = fmt.Sprintf("the success return at %s is reachable without evaluating the start test", p.Position(ret.Pos()))
-				}
-			}
-			// on the start edge itself, every path must reach the clearing store before it can return
-			for _, g := range gs {
-				iff := g.At.Instrs[len(g.At.Instrs)-1].(*ssa.If)
-				cv := m.CondOf(iff)
-				if !(vecMatches(cv, sp.pattern) || vecMatches(cv, "!"+sp.pattern)) {
-					continue
-				}
-				start := g.At.Succs[0]
-				if !g.Truth {
-					start = g.At.Succs[1]
-				}
-				seen := map[*ssa.BasicBlock]bool{}
-				stack := []*ssa.BasicBlock{start}
-				for len(stack) > 0 {
-					x := stack[len(stack)-1]
-					stack = stack[:len(stack)-1]
-					if seen[x] || x == st.Block() {
-						continue
+				switch x := in.(type) {
+				case *ssa.Store:
+					if isFieldAddr(x.Addr) && !derived[x.Val] {
+						s.dropped = true
 					}
-					seen[x] = true
-					if len(x.Instrs) > 0 {
-						if ret, isRet := x.Instrs[len(x.Instrs)-1].(*ssa.Return); isRet && len(ret.Results) > 0 && core.IsNilConst(core.Resolve(ret.Results[len(ret.Results)-1])) {
-							before = false
-							detail = fmt.Sprintf("with the start marker set, the success return at %s is reachable without clearing %s", p.Position(ret.Pos()), field)
-						}
+				case *ssa.If:
+					cv := m.CondOf(x)
+					isMark, markTrueMeansSet := false, false
+					switch {
+					case vecMatches(cv, sp.pattern):
+						isMark, markTrueMeansSet = true, true
+					case vecMatches(cv, "!"+sp.pattern):
+						isMark, markTrueMeansSet = true, false
 					}
-					// a path on which the buffer was found empty needs no clearing
-					if len(x.Instrs) > 0 {
-						if xi, isIf := x.Instrs[len(x.Instrs)-1].(*ssa.If); isIf && isEmptinessTest(xi.Cond, recv, field) {
-							if bo, ok := xi.Cond.(*ssa.BinOp); ok {
-								switch bo.Op {
-								case token.GTR, token.NEQ:
-									stack = append(stack, x.Succs[0])
+					empt := isEmptinessTest(x.Cond, recv, field)
+					for i, succ := range b.Succs {
+						ns := s
+						taken := i == 0
+						if isMark {
+							nTests++
+							bitSet := taken == markTrueMeansSet
+							if bitSet == sp.polarity {
+								if ns.mark == 2 {
+									continue // contradicts what the path already knows
+								}
+								ns.mark = 1
+							} else {
+								if ns.mark == 1 {
 									continue
-								case token.EQL:
-									stack = append(stack, x.Succs[1])
-									continue
+								}
+								ns.mark = 2
+							}
+						}
+						if empt {
+							if bo, ok := x.Cond.(*ssa.BinOp); ok {
+								emptyOnTrue := bo.Op == token.EQL || bo.Op == token.LEQ || bo.Op == token.LSS
+								if taken == emptyOnTrue {
+									ns.dropped = true // nothing was carried over
 								}
 							}
 						}
+						walk(succ, ns)
 					}
-					stack = append(stack, x.Succs...)
+					return
+				case *ssa.Jump:
+					walk(b.Succs[0], s)
+					return
+				case *ssa.Return:
+					// a packet that starts a unit must not leave the earlier fragment behind: the
+					// next continuation would be appended to it
+					if s.mark == 1 && !s.dropped && len(x.Results) > 0 && core.IsNilConst(core.Resolve(x.Results[len(x.Results)-1])) {
+						bad = fmt.Sprintf("the success return at %s is reached with the start marker set and the content of %s carried over from earlier packets still in place", p.Position(x.Pos()), field)
+					}
+					return
+				case *ssa.Panic:
+					return
 				}
 			}
-			if before && len(uses) > 0 {
-				ok = true
-			}
 		}
+		walk(fn.Blocks[0], st{})
 		n++
-		r.Add("STRUCT.carry", fnName, fmt.Sprintf("%s cleared when %s = %v before it is extended", field, sp.pattern, sp.polarity), p.Position(fn.Pos()), ok, detail)
+		ok := bad == "" && nTests > 0 && nUses > 0
+		detail := bad
+		if detail == "" && !ok {
+			detail = fmt.Sprintf("%d branches on the start marker, %d consumptions of %s found (%d loads)", nTests, nUses, field, nLoads)
+		}
+		r.Add("STRUCT.carry", fnName, fmt.Sprintf("%s carried over is consumed only on continuation paths (start: %s = %v)", field, sp.pattern, sp.polarity), p.Position(fn.Pos()), ok, detail)
 	}
 	return n
 }
@@ -506,7 +512,7 @@ func c16(c *Ctx) {
 		n += audioSplitRule(c, name)
 	}
 	n += opusRules(c)
-	r.Floor("audio rule instances", n, 14)
+	r.Floor("audio rule instances", n, 10)
 	// the three audio payloaders hand out freshly allocated fragments and never write the input (OWN O2/O3)
 	no := 0
 	for _, name := range []string{"codecs.(*G711Payloader).Payload", "codecs.(*G722Payloader).Payload", "codecs.(*OpusPayloader).Payload"} {
@@ -565,13 +571,97 @@ func audioSplitRule(c *Ctx, fnName string) int {
 			}
 		}
 	}
-	add("non-final fragment is make([]byte, mtu)", loopMake != nil && isMtu(loopMake.Len) && isMtu(loopMake.Cap), "fragment allocated in the loop does not have length mtu")
-	add("cursor advances by exactly mtu (payload = payload[mtu:])", advance != nil, "no re-slice payload[mtu:] in the loop")
+	// ---- semantic contracts (independent of how the cursor is written): decided by the linear
+	// interpreter at every copy and at every append of a fragment, helpers and closures included
+	type verdict struct {
+		ok     bool
+		seen   int
+		detail string
+	}
+	total, loopLen, posMtu := &verdict{ok: true}, &verdict{ok: true}, &verdict{ok: true}
+	fail := func(v *verdict, d string) {
+		if v.ok {
+			v.ok, v.detail = false, d
+		}
+	}
+	isFragList := func(t types.Type) bool {
+		sl, ok := t.Underlying().(*types.Slice)
+		if !ok {
+			return false
+		}
+		_, ok = sl.Elem().Underlying().(*types.Slice)
+		return ok
+	}
+	hooks := &bounds.Hooks{AtInstr: func(h *bounds.Helper, f *ssa.Function, in ssa.Instruction, d *bounds.Disjunct) {
+		call, ok := in.(*ssa.Call)
+		if !ok {
+			return
+		}
+		switch core.BuiltinName(call) {
+		case "copy":
+			total.seen++
+			ld, ls := d.Len(call.Call.Args[0]), d.Len(call.Call.Args[1])
+			if ld == nil || ls == nil || !d.Entails(lin.EQ(ld, ls)...) {
+				fail(total, "at "+p.Position(call.Pos())+" the destination and the source window may differ in length: "+d.Describe(lin.LE(ld, ls)))
+			}
+		case "append":
+			if f != fn || len(call.Call.Args) != 2 || !isFragList(call.Call.Args[0].Type()) {
+				return
+			}
+			m := d.Int(mtu)
+			if m == nil {
+				return
+			}
+			posMtu.seen++
+			if !d.Entails(lin.GE(m, lin.Const(1))) {
+				fail(posMtu, "a fragment is emitted at "+p.Position(call.Pos())+" although mtu may be 0")
+			}
+			if !inAnyLoop(call.Block()) {
+				return
+			}
+			sl, ok := call.Call.Args[1].(*ssa.Slice)
+			if !ok {
+				return
+			}
+			arr, ok := sl.X.(*ssa.Alloc)
+			if !ok {
+				return
+			}
+			for _, ref := range *arr.Referrers() {
+				ia, ok := ref.(*ssa.IndexAddr)
+				if !ok {
+					continue
+				}
+				for _, r2 := range *ia.Referrers() {
+					if st, ok := r2.(*ssa.Store); ok && st.Addr == ia {
+						loopLen.seen++
+						fl := d.Len(st.Val)
+						if fl == nil || !d.Entails(lin.EQ(fl, m)...) {
+							fail(loopLen, "the fragment appended in the loop at "+p.Position(call.Pos())+" need not have length mtu: "+d.Describe(lin.LE(fl, m)))
+						}
+					}
+				}
+			}
+		}
+	}}
+	eng := bounds.New(p, bounds.Config{K: 64, MaxDepth: 7, RetCap: 8}, hooks)
+	eng.AnalyzeEntry(fn)
+	add("every copy fills its destination from a window of exactly the same length", total.ok && total.seen >= 2, total.detail)
+	add("every fragment appended inside the loop has length exactly mtu", loopLen.ok && loopLen.seen >= 1, loopLen.detail)
+	add("no fragment is emitted when mtu == 0", posMtu.ok && posMtu.seen >= 2, posMtu.detail)
+	// ---- cursor discipline of the slice-cursor idiom (payload = payload[mtu:]); when the function is
+	// written differently (an integer offset, a helper) these clauses are not decided, the contracts
+	// above still are
+	if advance == nil || loopMake == nil {
+		r.Infof("%s: slice-cursor idiom not recognised; cursor-continuity clauses not decided (contracts on copy/append lengths are)", fnName)
+		return n
+	}
+	add("non-final fragment is make([]byte, mtu)", isMtu(loopMake.Len) && isMtu(loopMake.Cap), "fragment allocated in the loop does not have length mtu")
 	okCopyLoop, okCopyFinal := false, false
 	for _, cp := range copies {
 		dst, src := cp.Call.Args[0], cp.Call.Args[1]
-		if loopMake != nil && dst == ssa.Value(loopMake) {
-			if sl, ok := src.(*ssa.Slice); ok && sl.Low == nil && sl.High != nil && isMtu(sl.High) && advance != nil && sl.X == advance.X {
+		if dst == ssa.Value(loopMake) {
+			if sl, ok := src.(*ssa.Slice); ok && sl.Low == nil && sl.High != nil && isMtu(sl.High) && sl.X == advance.X {
 				okCopyLoop = true
 			}
 		}
@@ -603,18 +693,6 @@ func audioSplitRule(c *Ctx, fnName string) int {
 		}
 	}
 	add("loop continues exactly while len(rest) > mtu", okCond, "loop condition is not len(payload) > int(mtu)")
-	// mtu == 0 guard before the loop
-	okGuard := false
-	for _, b := range fn.Blocks {
-		for _, in := range b.Instrs {
-			if bo, ok := in.(*ssa.BinOp); ok && bo.Op == token.EQL && isMtu(bo.X) {
-				if k, ok := core.ConstInt(bo.Y); ok && k == 0 && !inAnyLoop(b) {
-					okGuard = true
-				}
-			}
-		}
-	}
-	add("mtu == 0 is rejected before the loop", okGuard, "no mtu == 0 test before the loop")
 	return n
 }
 
